@@ -477,6 +477,64 @@ func init() {
 				out.put(r)
 			}
 		}
+		// functions whose version 1 instruction bytes are identical while their positions differ, functions with
+		// closures next to jumps, logical operators jumping to jumps: instructions and source maps of every
+		// function after conversion = those of the fresh compilation
+		fixed := map[string]string{
+			"twins":     "param a\nf := func(x) {\n\tif x { return 1 }\n\treturn [][x]\n}\n\n\ng := func(x) {\n\tif x { return 1 }\n\treturn [][x]\n}\nreturn a ? f(false) : g(false)\n",
+			"twins-try": "param a\nf := func(x) { try { return [][x] } finally { x = 1 } }\n\ng := func(x) { try { return [][x] } finally { x = 1 } }\nreturn a ? f(5) : g(5)\n",
+			"closures":  "param a\nfns := []\nfor k := 0; k < 3; k++ {\n\tn := k\n\tif k > 0 { fns = append(fns, func() { return k + n }) }\n}\nreturn a ? fns[0]() : fns[9]()\n",
+			"logical":   "param a\nb := a && 1\nfor i := 0; i < 2; i++ { if a || i { continue }\n\tb = i }\nreturn a ? b : [][b]\n",
+		}
+		for name, src := range fixed {
+			r := map[string]any{"prog": name, "n": 0, "v1len": 0, "v2len": 0, "ok": true}
+			bc, err := ugo.Compile([]byte(src), ugo.CompilerOptions{})
+			if err != nil {
+				return fmt.Errorf("fixed program %s does not compile: %v", name, err)
+			}
+			nb, err := narrowBytecode(bc)
+			if err != nil {
+				r["skip"] = err.Error()
+				out.put(r)
+				continue
+			}
+			n++
+			func() {
+				defer func() {
+					if p := recover(); p != nil {
+						r["ok"], r["what"] = false, fmt.Sprint("panic: ", p)
+					}
+				}()
+				data, err := asV1Container(nb)
+				if err != nil {
+					r["ok"], r["what"] = false, "harness: "+err.Error()
+					return
+				}
+				got, err := encoder.DecodeBytecodeFrom(bytes.NewReader(data), nil)
+				if err != nil {
+					r["ok"], r["what"] = false, "decoder error: "+err.Error()
+					return
+				}
+				if !bytes.Equal(bc.Main.Instructions, got.Main.Instructions) || !reflect.DeepEqual(bc.Main.SourceMap, got.Main.SourceMap) {
+					r["ok"], r["what"] = false, "main: instructions / source map differ from the compiled ones"
+				}
+				for i := range bc.Constants {
+					a, ok1 := bc.Constants[i].(*ugo.CompiledFunction)
+					b, ok2 := got.Constants[i].(*ugo.CompiledFunction)
+					if ok1 && ok2 && (!bytes.Equal(a.Instructions, b.Instructions) || !reflect.DeepEqual(a.SourceMap, b.SourceMap)) {
+						r["ok"], r["what"] = false, fmt.Sprintf("constant %d: instructions / source map differ from the compiled ones", i)
+					}
+				}
+				for _, arg := range []ugo.Object{ugo.True, ugo.False} {
+					w, werr := ugo.NewVM(bc).SetRecover(true).Run(nil, arg)
+					g, gerr := ugo.NewVM(got).SetRecover(true).Run(nil, arg)
+					if fmt.Sprintf("%v|%+v", w, werr) != fmt.Sprintf("%v|%+v", g, gerr) {
+						r["ok"], r["what"] = false, fmt.Sprintf("a=%v: decoded from version 1 gives %v / %+v, compiled gives %v / %+v", arg, g, gerr, w, werr)
+					}
+				}
+			}()
+			out.put(r)
+		}
 		out.put(map[string]any{"done": true, "n": n})
 		return nil
 	}
